@@ -120,6 +120,27 @@ def search(ctx):
         seen.add((b.left, b.bottom, b.right, b.top, p.x, p.y))
         f = check_predicates(b, p, c)
         if f: fails.append({'class': 'C19-predicate', 'what': f[0], 'input': {'box': [b.left, b.bottom, b.right, b.top], 'other': [c.left, c.bottom, c.right, c.top], 'point': [p.x, p.y]}, 'observed': f, 'expected': 'closed-range definitions'})
+    # boundary cases in binary floating point: boxes that touch along an edge / at a corner at coordinates that are not dyadic
+    # (0.1, 0.3, 1/3, large magnitudes), and points one ulp or a 1e-9 relative step beyond an edge
+    import math as _m
+    for _ in range(ctx.n(400, 8000)):
+        sc = rng.choice([1.0, 1.0, 1e3, 1e16, 1e-3])
+        v = lambda: rng.choice([0.1, 0.2, 0.3, 0.7, 1 / 3, 2 / 3, 1.1, rng.uniform(0, 3), float(rng.randint(1, 300))]) * sc
+        x0, w, y0, h = v(), v(), v(), v()
+        b = box(x0, y0, x0 + w, y0 + h)
+        k = rng.choice(['edge-x', 'edge-y', 'corner', 'point-out', 'point-ulp'])
+        w2, h2 = v(), v()
+        if k == 'edge-x': c = box(b.right, y0 + rng.uniform(-0.5, 0.5) * h, b.right + w2, y0 + h2)
+        elif k == 'edge-y': c = box(x0 + rng.uniform(-0.5, 0.5) * w, b.top, x0 + w2, b.top + h2)
+        else: c = box(b.right, b.top, b.right + w2, b.top + h2)
+        if rng.random() < 0.5: c = box(b.left - w2, c.bottom, b.left, c.top) if k == 'edge-x' else c
+        side = rng.choice(['l', 'r', 'b', 't'])
+        step = (lambda z, up: _m.nextafter(z, _m.inf if up else -_m.inf)) if k == 'point-ulp' else (lambda z, up: z + (1 if up else -1) * abs(z) * rng.choice([1e-10, 5e-10, 9e-10]))
+        midx, midy = (b.left + b.right) / 2, (b.bottom + b.top) / 2
+        p = {'l': P(step(b.left, False), midy), 'r': P(step(b.right, True), midy), 'b': P(midx, step(b.bottom, False)), 't': P(midx, step(b.top, True))}[side]
+        ev += 1; dist['predicates/boundary-' + k] = dist.get('predicates/boundary-' + k, 0) + 1
+        f = check_predicates(b, p, c)
+        if f: fails.append({'class': 'C19-predicate', 'what': f[0], 'input': {'box': [b.left, b.bottom, b.right, b.top], 'other': [c.left, c.bottom, c.right, c.top], 'point': [p.x, p.y]}, 'observed': f, 'expected': 'closed-range definitions'})
     # exhaustive small sweep configurations on a grid (thorough: 2+2 boxes on 0..3; quick: 1+2)
     coords = range(0, 4 if ctx.tier == 'thorough' else 3)
     allb = [box(float(x0), float(y0), float(x1), float(y1)) for x0 in coords for x1 in coords if x0 <= x1 for y0 in (0, 1) for y1 in (0, 2) if y0 <= y1]
